@@ -3736,6 +3736,20 @@ func (t *Topic) markDeleted() {
 	t.statusChangeBits(topicStatusMarkedDeleted, true)
 }
 
+// markDeletedIfActive marks topic as being deleted unless it is already paused or being deleted.
+// Returns true if this call has marked it.
+func (t *Topic) markDeletedIfActive() bool {
+	for {
+		oldStatus := atomic.LoadInt32(&t.status)
+		if oldStatus&(topicStatusPaused|topicStatusMarkedDeleted) != 0 {
+			return false
+		}
+		if atomic.CompareAndSwapInt32(&t.status, oldStatus, oldStatus|topicStatusMarkedDeleted) {
+			return true
+		}
+	}
+}
+
 // markReadOnly suspends/un-suspends the topic: adds or removes the 'read-only' flag.
 func (t *Topic) markReadOnly(readOnly bool) {
 	t.statusChangeBits(topicStatusReadOnly, readOnly)
